@@ -494,7 +494,10 @@ static void ComputeMacroStrings(PInputTag Tag) {
         Tag->AllArgs[0] = '\0';
         Lauf            = Tag->Params;
         while (Lauf) {
-            if (Tag->AllArgs[0] != '\0') {
+            /* separator in front of every element but the first one - also if
+               the elements so far were all empty */
+
+            if (Lauf != Tag->Params) {
                 strmaxcat(Tag->AllArgs, ",", STRINGSIZE);
             }
             strmaxcat(Tag->AllArgs, Lauf->Content, STRINGSIZE);
